@@ -73,6 +73,7 @@ type found struct {
 	Tape   []uint32
 	Sample []string
 	Cold   bool     // found by a cold-start process (replay must pass -cold)
+	GMP    string   // GOMAXPROCS of the worker process that found it
 	Sched  []string // schedule / fault decisions of the (replayed) run
 	Race   string   // race detector report, if that is what fired
 }
@@ -89,8 +90,16 @@ const raceExit = 66
 
 // runChunk executes one worker process over [from,to).
 func runChunk(bin, prop string, seed uint64, from, to int, order string, extra ...string) chunkResult {
-	return runChunkEnv(bin, prop, seed, from, to, order, gomaxprocs, extra...)
+	gmp := gomaxprocs
+	if replayGMP != "" {
+		gmp = replayGMP
+	}
+	return runChunkEnv(bin, prop, seed, from, to, order, gmp, extra...)
 }
+
+// replayGMP, when set, is the GOMAXPROCS value replays run with (the one of the worker
+// process that found the violation).
+var replayGMP string
 
 func runChunkEnv(bin, prop string, seed uint64, from, to int, order string, gmp string, extra ...string) chunkResult {
 	cr := chunkResult{from: from, to: to}
@@ -191,6 +200,7 @@ func runChunkEnv(bin, prop string, seed uint64, from, to int, order string, gmp 
 	close(done)
 	if cr.viol != nil {
 		cr.viol.From = from
+		cr.viol.GMP = gmp
 	}
 	if hung {
 		cr.err = fmt.Errorf("worker made no progress for %v in run %d of %s (a loop outside the simulator's reach?)", watchdog, last, prop)
@@ -208,14 +218,14 @@ func runChunkEnv(bin, prop string, seed uint64, from, to int, order string, gmp 
 				cr.err = fmt.Errorf("race report located in the harness/simulator (run %d):\n%s", last, clip(es, 6000))
 				return cr
 			}
-			cr.viol = &found{From: from, I: last, Viol: Violation{Class: prop + ":data-race", Key: raceKey(es), Detail: clip(es, 6000)}, Race: es}
+			cr.viol = &found{From: from, GMP: gmp, I: last, Viol: Violation{Class: prop + ":data-race", Key: raceKey(es), Detail: clip(es, 6000)}, Race: es}
 			cr.sum = &summary{Next: last + 1, To: to}
 			if order == "desc" {
 				cr.sum.Next = last - 1
 			}
 		case strings.Contains(es, "fatal error:") || strings.Contains(es, "panic:") || strings.Contains(es, "goroutine "):
 			// the process died: a crash of the library inside a run is a finding of that run
-			cr.viol = &found{From: from, I: last, Viol: Violation{Class: prop + ":process-crash", Key: crashKey(es), Detail: clip(es, 4000)}}
+			cr.viol = &found{From: from, GMP: gmp, I: last, Viol: Violation{Class: prop + ":process-crash", Key: crashKey(es), Detail: clip(es, 4000)}}
 			cr.sum = &summary{Next: last + 1, To: to}
 		default:
 			cr.err = fmt.Errorf("worker exited with %v (run %d)\n%s", werr, last, clip(es, 3000))
@@ -432,7 +442,14 @@ func runBatch(bin, prop string, seed uint64, total, chunk, par int, deadline tim
 				if !ok {
 					return
 				}
-				cr := runChunk(bin, prop, seed, s.from, s.to, order, extra...)
+				// every fourth worker process runs with GOMAXPROCS=4: code that sizes itself by
+				// the number of CPUs (worker pools, sharded caches) behaves differently there; a
+				// run's events do not depend on it (determinism self-test)
+				gmp := gomaxprocs
+				if chunk > 0 && (s.from/chunk)%4 == 3 {
+					gmp = "4"
+				}
+				cr := runChunkEnv(bin, prop, seed, s.from, s.to, order, gmp, extra...)
 				mu.Lock()
 				b.chunks++
 				if cr.err != nil {
